@@ -192,4 +192,53 @@ theorem gen_dickson2 (n : ℕ) (al x : K) : Generated.C07.dickson2 (n : ℤ) al 
           dsimp only [Generated.C07.dickson2_st_Pn, Generated.C07.dickson2_st_Pnm1, Generated.C07.dickson2_st_Pnm2] at hs1 hs2 ⊢
           refine ⟨?_, hs1, fun _ => ?_⟩ <;> (rw [hs1, hs2]; simp only [dickson2]; rw [dickPair_succ_succ]))
 end
+section qbfs
+variable {K : Type} [Field K] [DecidableEq K] [CharZero K]
+
+/-- one step of the model's coupled `(P, Q)` recurrence for Qbfs, written out -/
+theorem qbfsPQ_step (sqrt : K → K) (rho : K) (n : ℕ) :
+    qbfsPQ sqrt rho (n+1) =
+      ((qbfsPQ sqrt rho n).2.1, (2 - 4 * rho) * (qbfsPQ sqrt rho n).2.1 - (qbfsPQ sqrt rho n).1,
+       (qbfsPQ sqrt rho n).2.2.2,
+       ((2 - 4 * rho) * (qbfsPQ sqrt rho n).2.1 - (qbfsPQ sqrt rho n).1 - qbfsG sqrt (n+1) * (qbfsPQ sqrt rho n).2.2.2
+          - qbfsH n (qbfsF sqrt n) * (qbfsPQ sqrt rho n).2.2.1) * (1 / qbfsF sqrt (n+2))) := by
+  simp [qbfsPQ]
+
+/-- the translated body of `Qbfs` (loop included) computes the model's `qbfs sqrt n x`, every `n`, every `sqrt` -/
+theorem gen_qbfs (sqrt : K → K) (n : ℕ) (x : K) : Generated.C07.qbfs sqrt (n : ℤ) x = qbfs sqrt n x := by
+  first
+  | (show Model.C07.qbfs _ _ _ = _; simp)
+  | (
+      match n with
+      | 0 => simp [Generated.C07.qbfs, qbfs, qbfsPQ, pow_two]
+      | 1 => simp [Generated.C07.qbfs, qbfs, qbfsPQ, pow_two]
+      | n+2 =>
+        have h0 : ¬ (((n + 2 : ℕ) : ℤ) = 0) := by omega
+        have h1 : ¬ (((n + 2 : ℕ) : ℤ) = 1) := by omega
+        unfold Generated.C07.qbfs
+        simp only [if_neg h0, if_neg h1, ofInt_eq, npow_eq, Int.cast_one, Int.cast_ofNat, Int.cast_zero]
+        rw [show ((n+2:ℕ):ℤ) + 1 = 2 + ((n+1:ℕ):ℤ) by push_cast; ring]
+        rw [show qbfs sqrt (n+2) x = (qbfsPQ sqrt (x*x) (n+1)).2.2.2 * (x*x*(1-x*x)) from by
+          simp [qbfs, qbfsPQ_step]]
+        congr 1
+        · refine (forRange_induct (fun k s =>
+              Generated.C07.qbfs_st_Pnm2 s = (qbfsPQ sqrt (x*x) k).1 ∧ Generated.C07.qbfs_st_Pnm1 s = (qbfsPQ sqrt (x*x) k).2.1
+              ∧ Generated.C07.qbfs_st_Qnm2 s = (qbfsPQ sqrt (x*x) k).2.2.1 ∧ Generated.C07.qbfs_st_Qnm1 s = (qbfsPQ sqrt (x*x) k).2.2.2
+              ∧ (1 ≤ k → Generated.C07.qbfs_st_Qn s = (qbfsPQ sqrt (x*x) k).2.2.2)) 2 _ _ ?_ ?_ (n+1)).2.2.2.2 (by omega)
+          · simp [qbfsPQ, pow_two]
+          · rintro k s ⟨hs1, hs2, hs3, hs4, -⟩
+            dsimp only [Generated.C07.qbfs_st_Pn, Generated.C07.qbfs_st_Pnm1, Generated.C07.qbfs_st_Pnm2, Generated.C07.qbfs_st_Qn, Generated.C07.qbfs_st_Qnm1, Generated.C07.qbfs_st_Qnm2] at hs1 hs2 hs3 hs4 ⊢
+            have eg : qbfsGi sqrt (2 + (k:ℤ) - 1) = qbfsG sqrt (k+1) := by
+              simp only [qbfsGi]; congr 1; omega
+            have eh : qbfsHi sqrt (2 + (k:ℤ) - 2) = qbfsH k (qbfsF sqrt k) := by
+              have : (2 + (k:ℤ) - 2).toNat = k := by omega
+              simp only [qbfsHi, this]
+            have ef : qbfsFi sqrt (2 + (k:ℤ)) = qbfsF sqrt (k+2) := by
+              simp only [qbfsFi]; congr 1; omega
+            simp only [eg, eh, ef, hs1, hs2, hs3, hs4, qbfsPQ_step, pow_two]
+            exact ⟨trivial, trivial, trivial, trivial, fun _ => trivial⟩
+        · ring)
+
+end qbfs
+
 end C07L
